@@ -4,7 +4,7 @@
 /// and the call before that was a scan step that returned None (precondition of poll_pending).
 pub open spec fn pending_only_if_armed<O>(s: PS<O>, ret: PollResult<O>) -> bool {
     let n = s.tr.len() as int;
-    ret is Pending ==> n >= 2 && s.tr[n - 2] == PEv::<O>::Poll(PK::CbFalse) && s.tr[n - 1] == PEv::<O>::Closed(false) && !s.closed_seen
+    ret is Pending ==> n >= 2 && s.tr[n - 2] == PEv::<O>::Cb(CbAns::False) && s.tr[n - 1] == PEv::<O>::Closed(false) && !s.closed_seen
 }
 /// Closed is reported only after a load of the closed flag returned true (the last event)
 pub open spec fn closed_only_if_closed<O>(s: PS<O>, ret: PollResult<O>) -> bool {
@@ -19,13 +19,13 @@ pub open spec fn signal_from_scan<O>(s: PS<O>, ret: PollResult<O>) -> bool {
 /// an error is the callback's error, passed on at once
 pub open spec fn err_from_callback<O>(s: PS<O>, ret: PollResult<O>) -> bool {
     let n = s.tr.len() as int;
-    ret is Err ==> n >= 1 && s.tr[n - 1] == PEv::<O>::Poll(PK::CbErr) && !s.closed_seen
+    ret is Err ==> n >= 1 && s.tr[n - 1] == PEv::<O>::Cb(CbAns::Err) && !s.closed_seen
 }
 /// non-vacuity: the four predicates are satisfiable together and refute a Pending after a closed poll
 proof fn witness_poll_signal_post()
 {
-    let s = PS::<int> { tr: seq![PEv::Closed(false), PEv::Next(None), PEv::Closed(false), PEv::Poll(PK::CbFalse), PEv::Closed(false)], closed_seen: false };
+    let s = PS::<int> { tr: seq![PEv::Closed(false), PEv::Next(None), PEv::Closed(false), PEv::Cb(CbAns::False), PEv::Closed(false)], closed_seen: false };
     assert(pending_only_if_armed(s, PollResult::<int>::Pending));
-    let bad = PS::<int> { tr: seq![PEv::Closed(false), PEv::Next(None), PEv::Closed(true), PEv::Poll(PK::ClosedNoCall)], closed_seen: true };
+    let bad = PS::<int> { tr: seq![PEv::Closed(false), PEv::Next(None), PEv::Closed(true)], closed_seen: true };
     assert(!pending_only_if_armed(bad, PollResult::<int>::Pending));
 }
